@@ -134,6 +134,21 @@ def run_scenario(res: Result, seed: int) -> None:
                     except Exception as e:  # noqa
                         log.append((sim.now_ms(), "registration_exception", repr(e)))
                 pending.append(asyncio.ensure_future(at(off, lambda: asyncio.ensure_future(reg()))))
+                if rng.random() < 0.5:
+                    # a second registration started 10..140 ms before close is requested: with services registered it completes
+                    # during the *second* goodbye round (the first round withdraws them, the second one the first latecomer)
+                    s3 = R.gen_service(rng, type_=T1, min_ttl=10)
+                    s3.name = "later." + T1
+                    s3.server = "h-later.local."
+                    off3 = float(rng.choice([10, 50, 90, 140]))
+
+                    async def reg3() -> None:
+                        try:
+                            t = await zc.async_register_service(R.make_info(s3))
+                            await t
+                        except Exception as e:  # noqa
+                            log.append((sim.now_ms(), "registration_exception", repr(e)))
+                    pending.append(asyncio.ensure_future(at(off3, lambda: asyncio.ensure_future(reg3()))))
             if acts["queries"] and svcs:
                 for k in range(rng.choice([1, 2, 3])):
                     s = rng.choice(svcs)
